@@ -190,7 +190,7 @@ def merge_stats(a, b):
 
 
 def run_replay(scr, binary, cases_path, dtypes="sizes", pals="ident", rotate=0, seed=0, shards=None, engine="",
-               cfgname="default", maxdiv=50, extra=(), env=None, timeout=3000):
+               cfgname="default", maxdiv=3000, extra=(), env=None, timeout=3000):
     shards = shards or NPROC
     procs = []
     tag = hashlib.md5((cases_path + cfgname + dtypes + pals + engine).encode()).hexdigest()[:8]
@@ -241,6 +241,8 @@ def finding_matches(kf, d):
     for key, field in (("op", "op"), ("kind", "kind"), ("fam", "fam"), ("dt", "dt"), ("cfg", "cfg")):
         if key in m and not re.fullmatch(m[key], dv.get(field, "")):
             return False
+    if "tag" in m and m["tag"] not in (dv.get("tags") or []):
+        return False
     if "detail_re" in m and not re.search(m["detail_re"], dv.get("detail", "")):
         return False
     if "path_re" in m and not re.search(m["path_re"], dv.get("path", "")):
